@@ -3,7 +3,9 @@
  G1 (K2+K6b) SizedBundle::try_push: the buffer grows (and curr_size is assigned) only on the
     false edges of both size comparisons (action > max; curr + action > max); curr_size is
     assigned exactly the compared new size, which is curr_size (+) the action's encoded length;
-    refusing paths assign nothing to self.
+    refusing paths assign nothing to self; what is stored in the buffer is exactly the value
+    whose encoded length was charged (no conversion or in-place edit between measuring and
+    storing).
  G2 (K1) the finished queue is only touched by push_back (try_push), pop_front (pop_now,
     NextFinishedBundle::pop), len/is_empty; the buffer only by push / flush's replace.
  G3 (K2) BundleFactory::try_push: a flush (push_back of the current bundle) happens only on the
